@@ -650,11 +650,13 @@ def main(argv=None):
         print(ln)
     errors = res['errors']
     n_bonly = sum(1 for o in obs if o.status == 'bounded-pass' and 'declared bounded' not in (o.detail or ''))
+    n_decl = sum(1 for o in obs if o.status == 'bounded-pass' and 'declared bounded' in (o.detail or ''))
     print('%s tier=%s obligations=%d discharged=%d known=%d violations=%d '
           'undecided=%d bounded_checks=%d errors=%d%s wall=%.1fs'
           % (prop, tier, n_obl, n_dis, len(known_hit),
              len(violations) + len(bfail), len(undec), len(bounded),
-             len(errors), (' bounded_only=%d' % n_bonly) if n_bonly else '', time.time() - t0))
+             len(errors), ((' bounded_only=%d' % n_bonly) if n_bonly else '') +
+             ((' declared_bounded=%d' % n_decl) if n_decl else ''), time.time() - t0))
     for o in undec:
         print('  UNDECIDED %s: %s' % (o.name, o.detail))
     missing = [] if (a.only or a.shard) else missing_obligations(prop, expected, obs)
@@ -736,17 +738,20 @@ def build_evidence(prop, tier, seed, res, obs, files, bounded, known_hit,
         # obligations the proof claim covers: all generated obligations except
         # those that fail and are listed in known_findings.json (reported
         # separately below, never counted as discharged)
-        'obligations': len(obs) - n_known,
+        # (contracts that were only run natively - `bounded-pass` - are not
+        # proof obligations either: listed under bounded_only_contracts)
+        'obligations': len(obs) - n_known - sum(1 for o in obs if o.status == 'bounded-pass'),
         'obligations_total': len(obs),
+        'bounded_only_obligations': sum(1 for o in obs if o.status == 'bounded-pass'),
         'known_finding_obligations': n_known,
         'discharged': n_dis,
         'checker_cmd': './check %s --tier %s' % (prop, tier),
         'trusted_base': trusted,
         'explanation': 'contract-based deductive verification of the real '
         'source (re-read and symbolically executed on every run); '
-        '%d obligations, %d discharged by SMT; %d bounded stand-ins '
-        '(labelled, never counted as proved)' % (len(obs), n_dis,
-                                                 len(bounded)),
+        '%d obligations, %d discharged by SMT; %d bounded scripts and %d '
+        'contracts run natively only (both labelled bounded, never counted as proved)'
+        % (len(obs), n_dis, len(bounded), sum(1 for o in obs if o.status == 'bounded-pass')),
         'functions_under_contract': list(res['functions'].values()),
         'by_backend': {k: {'queries': v['queries'],
                            'seconds': round(v['seconds'], 3)}
